@@ -4,7 +4,7 @@
    handshake_rejects: ideal AEAD with key binding, injective ECDH/HKDF. *)
 From Coq Require Import List NArith ZArith Bool Lia.
 From Coq Require Import ZifyBool ZifyN ZifyNat.
-From LV Require Import Noise.Model Noise.Proofs.
+From LV Require Import Noise.Model Noise.Spec Noise.Proofs.
 Import ListNotations.
 Local Open Scope N_scope.
 
@@ -52,34 +52,8 @@ Section Hs.
   Notation rcv_eph := (recv_eph_act K W SK PK wv dec hkdf mixb mixc ser parse).
   Notation splt := (split K W SK PK hkdf).
 
-  (* the six calls of an undisturbed handshake; [target] is the static public
-     key the initiator dials *)
-  Definition hs_honest (ls rs ei er : SK) (target : PK)
-    : res (list W * list W * list W * mach * mach) :=
-    match gen1 (new_i ls target) ei with
-    | Err e => Err e
-    | Ok (a1, i1) =>
-      match rcv1 (new_r rs) a1 with
-      | Err e => Err e
-      | Ok r1 =>
-        match gen2 r1 er with
-        | Err e => Err e
-        | Ok (a2, r2) =>
-          match rcv2 i1 a2 with
-          | Err e => Err e
-          | Ok i2 =>
-            match gen3 i2 with
-            | Err e => Err e
-            | Ok (a3, i3) =>
-              match rcv3 r2 a3 with
-              | Err e => Err e
-              | Ok r3 => Ok (a1, a2, a3, i3, r3)
-              end
-            end
-          end
-        end
-      end
-    end.
+  Notation hs_honest :=
+    (Spec.hs_honest K W SK PK wb wv enc dec hkdf zeroK h0 mixb mixc pub dh ser parse).
 
   Hypothesis wv_wb : forall n, wv (wb n) = Some n.
 
